@@ -1827,8 +1827,17 @@ func keepFn(fn int, ord int, v MVal) bool {
 	case 2:
 		return ord%2 == 0
 	}
+	if fn >= keepFirst {
+		// the first fn-keepFirst candidates: results of an exact size (a buffer that is exactly full, a batch boundary)
+		return ord < fn-keepFirst
+	}
 	return v.K == KInt || v.K == KString || v.isRef()
 }
+
+const keepFirst = 1000
+
+// exact result sizes for keepFn's "the first k" predicate: powers of two and their neighbours
+var keepSizes = []int{1, 2, 7, 8, 9, 15, 16, 17, 31, 32, 33, 63, 64, 65, 127, 128, 129, 255, 256, 257, 511, 512, 513, 1024}
 
 var typedKinds = []Kind{KObj, KList, KString, KBool, KInt, KFloat}
 var typedNames = []string{"Objects", "Lists", "Strings", "Bools", "Ints", "Floats"}
@@ -1841,6 +1850,17 @@ func opMapFilter(h *Hist) {
 	}
 	fn := h.d.Draw("fn", 4)
 	variant := h.d.Draw("mf-variant", 17)
+	if h.chain > 0 {
+		variant = 8 + h.d.Draw("mf-filter-variant", 6)
+	}
+	if variant >= 8 && variant <= 13 && h.d.Draw("keep-first-k", 3) == 0 {
+		// prefer the sizes the receiver can deliver
+		k := keepSizes[h.d.Draw("keep-first-size", len(keepSizes))]
+		for k > len(n.Elems) && k > 1 && h.d.Draw("keep-first-shrink", 4) != 0 {
+			k /= 2
+		}
+		fn = keepFirst + k
+	}
 	// 0 Map, 1 MapValues, 2..7 typed Map, 8 Filter, 9..13 typed Filter (no FilterBools in the API), 14 MapAsync, 15/16 Map
 	name := "Map"
 	tk := Kind(255)
@@ -2002,6 +2022,12 @@ func opMapFilter(h *Hist) {
 	h.derive(r, name, n)
 	h.trace[len(h.trace)-1] += " -> " + r.Name
 	h.heapCheck()
+	if isFilter && !h.dead && h.chain == 0 && h.d.Draw("filter-again", 2) == 0 {
+		// a second Filter* right behind the first, on any list: what the first result holds must not be scratch space of the next call
+		h.chain++
+		opMapFilter(h)
+		h.chain--
+	}
 }
 
 // mvOfGo converts a value handed to a callback back into the model value (containers through the binder).
